@@ -93,14 +93,18 @@ class SliceInner:
 def _slice_inner(slize: Slice) -> SliceInner:
     """Calculate the inner resolved fields for `slize`"""
 
+    # Widths of references (to ports and bundle members) come from their referents
+    from .elab.helpers.width import width as width_of
+
     parent = slize.parent
     index = slize.index
+    parent_width = width_of(parent)
 
     if isinstance(index, int):
-        if index >= parent.width:
+        if not (-parent_width <= index < parent_width):
             raise ValueError(f"Out-of-bounds index {index} into {parent}")
         if index < 0:
-            index += parent.width
+            index += parent_width
         return SliceInner(top=index + 1, bot=index, step=1, width=1)
 
     if isinstance(index, slice):
@@ -110,45 +114,20 @@ def _slice_inner(slize: Slice) -> SliceInner:
         stop = slice.__getattribute__(index, "stop")
         step = slice.__getattribute__(index, "step")
 
-        step = 1 if step is None else step
         if step == 0:
             raise ValueError(f"slice step cannot be zero")
-        elif step < 0:
-            # Here `top` gets a "+1" since `start` is *inclusive*, while `bot` gets "+1" as `stop` is *exclusive*.
-            top = (
-                parent.width
-                if start is None
-                else start + 1
-                if start >= 0
-                else parent.width + start + 1
-            )
-            bot = (
-                0
-                if stop is None
-                else stop + 1
-                if stop >= 0
-                else parent.width + stop + 1
-            )
-            # Align bot with the step
-            bot += (top - bot) % abs(step)
-        else:
-            # Here `start` and `stop` match `top` and `bot`'s inclusive/exclusivity.
-            # No need to add any offsets.
-            top = (
-                parent.width
-                if stop is None
-                else stop
-                if stop >= 0
-                else parent.width + stop
-            )
-            bot = 0 if start is None else start if start >= 0 else parent.width + start
-            # Align top with the step
-            top -= (top - bot) % step
 
-        width = (top - bot) // step
+        # Let Python itself normalize the indices: `selected` is the (`range` of) parent indices,
+        # in the order, that the same slice selects from a `parent_width`-long list.
+        selected = range(parent_width)[slice(start, stop, step)]
+        if not len(selected):
+            raise ValueError(f"Empty slice {index} of {parent}")
 
-        # Create and return our Slice. More checks are done in its constructor.
-        return SliceInner(top=top, bot=bot, step=step, width=width)
+        # `bot` is the lowest selected index (inclusive) and `top` one past the highest (exclusive),
+        # whichever the direction of `step`.
+        bot = min(selected[0], selected[-1])
+        top = max(selected[0], selected[-1]) + 1
+        return SliceInner(top=top, bot=bot, step=selected.step, width=len(selected))
 
     # Shouldn't be reachable, but blow up if we (somehow) get here.
     raise TypeError("Internal Error: Slice index should be an int or (python) slice")
